@@ -53,6 +53,14 @@ def run(res, b, tier, seed):
     for i in range(40 if quick else 300):
         c = c09.gen_case(rng, i)
         progs.append(pipeline.Case("m%d" % len(progs), c.files))
+    # programs that use the same names differently: state kept on the transpiler object / parser / converter between calls shows up
+    inter0 = len(progs)
+    for body in ("print(shared())\n", "print(other())\n", "var g int = 5\nprint(g)\n", "print(shared() + other())\n"):
+        progs.append(pipeline.Case("i%d" % len(progs), {"main.tsh": ("func shared() int {\n\treturn 1\n}\nfunc other() int {\n\treturn 2\n}\n" + body).encode(),
+                                                         "lib.tsh": b"func Pub() int {\n\treturn 7\n}\n"}))
+    progs.append(pipeline.Case("i%d" % len(progs), {"main.tsh": b'import l "lib.tsh"\nfunc shared() string {\n\treturn "s"\n}\nprint(l.Pub())\n',
+                                                     "lib.tsh": b"func Pub() int {\n\treturn 7\n}\nfunc Unused() int {\n\treturn 8\n}\n"}))
+    inter1 = len(progs)
     progs.append(pipeline.Case("bad", {"main.tsh": b"x := \n"}))
     # reference: one call per (program, target) in fresh processes
     pipeline.run_pipe(b, progs, "sw")
@@ -78,10 +86,18 @@ def run(res, b, tier, seed):
                     fails.append(("fresh-process", i, t, got))
     # (b) interleaved histories on one transpiler object, in relocated work directories
     nh = 20 if quick else 300
+    directed = [[(i, t1), (j, t2)] for i in range(inter0, inter1) for j in range(inter0, inter1) if i != j
+                for (t1, t2) in (("bash", "bash"), ("batch", "batch"), ("bash", "batch"))]
+    rng.shuffle(directed)
+    directed = directed[:30 if quick else len(directed)]
+    nh = nh + len(directed)
     for h in range(nh):
-        k = rng.randrange(2, 7)
-        idx = [rng.randrange(len(progs)) for _ in range(rng.randrange(1, 6))]
-        seq = [(rng.choice(idx), rng.choice(["bash", "batch"])) for _ in range(k)]
+        if h < len(directed):
+            seq = directed[h]
+        else:
+            k = rng.randrange(2, 7)
+            idx = [rng.randrange(len(progs)) for _ in range(rng.randrange(1, 6))]
+            seq = [(rng.choice(idx), rng.choice(["bash", "batch"])) for _ in range(k)]
         sub = sorted(set(i for i, _ in seq))
         remap = {i: j for j, i in enumerate(sub)}
         base = tempfile.mkdtemp(prefix="tshhist-")
